@@ -158,6 +158,8 @@ class FnExprs:
                 return ('fn', c['d'], callee_name(c))
             if 'iv' in op:
                 return ('const', str(op['iv']))   # named integer constant, evaluated by the driver
+            if 'ivs' in op:
+                return ('const', op['ivs'])
             return ('const', op.get('v', '?'))
         return ('unknown', 'operand')
 
